@@ -400,10 +400,12 @@ def resBodyChunkedData (c : Conn) : R :=
   let c := { c with out := { c.out.advance n with chunkedLength := c.out.chunkedLength - n } }
   if c.out.chunkedLength == 0 then ({ c with outState := .bodyChunkedDataEnd }, .ok) else (c, .data)
 
-/-- data_probe_chunk_length: 1 = keep reading the line -/
+/-- data_probe_chunk_length: 1 = keep reading the line. The probe covers the whole line so far - the part buffered from earlier
+    chunks and the part in the current chunk (S41, repaired in /repo: it used to look at the current chunk only, so a cut inside a
+    chunk extension made the continuation look like leading junk). -/
 def dataProbeChunkLength (d : Dir) : Bool :=
-  if d.read - d.consume < 8 then true else
-  let data := sliceCur d d.consume d.read
+  let data := (d.buf.getD []) ++ sliceCur d d.consume d.read
+  if data.length < 8 then true else
   let rest := data.dropWhile isChunkedCtl
   match rest with
   | [] => true
